@@ -108,6 +108,7 @@ def run(rep, tier):
         ('CONV-arity', 'every callee receives exactly the extra positionals / keywords its definition takes'),
         ('CONV-hashable', 'no dict/list/set display inside a memo key'),
         ('LOCAL-shadow', 'locally bound names are emitted as locals, not as rules of the same name'),
+        ('ARG-wrap-owner', 'only Str / Byte arguments are wrapped into values that compare by text (memo keys)'),
         ('ARG-captures', 'a compound template argument is handed exactly the local names it uses (free variables '
                          'of the skeleton object) at the place of the call'),
         ('SIBLING-argumentize', 'no argumentize override calls itself with unchanged arguments'),
@@ -116,7 +117,7 @@ def run(rep, tier):
         ('ROUTE-raises', 'the translator compiles every template route without raising'),
     ]:
         rep.rule(rid, txt)
-    found, stats, nmods = routes.run(rep, 'C06', ['CONV-', 'LOCAL-shadow', 'ENTRY-params', 'ADAPTOR', 'ARG-captures'],
+    found, stats, nmods = routes.run(rep, 'C06', ['CONV-', 'LOCAL-shadow', 'ENTRY-params', 'ADAPTOR', 'ARG-'],
                                      label_filter=lambda msg: msg.startswith(('templates', 'shadow', 'let', 'classes',
                                                                               'deep-nesting', 'runtime', 'sourcer/')))
     rep.floor('route modules emitted', nmods, 26)
